@@ -58,7 +58,11 @@ pub fn render_case(src: &Src) -> Vec<u8> {
                 if f.is_ascii() && f.len() >= 4 {
                     let i = ((*pos as usize) * (f.len() - 1)) >> 16;
                     // two-byte characters replace two hex digits, one-byte ones replace one
-                    let rep: &str = match what % 8 {
+                    let rep: &str = match what % 12 {
+                        8 => "+",
+                        9 => "-",
+                        10 => "x",
+                        11 => "G",
                         0 => "ñ",  // C3 B1
                         1 => "ð",  // C3 B0
                         2 => "ù",  // C3 B9
@@ -476,6 +480,7 @@ impl Prop for C01 {
                 2 => prop::sample::select(table.to_vec()).prop_map(|s| Some(s.to_string())),
                 1 => prop::sample::select(vec!["1.0", "1e0", "-0", "-1", "01", "1E2", "0.0", "+1", "0x10", " 7"]).prop_map(|s| Some(s.to_string())),
                 1 => "[1-9][0-9]{0,24}".prop_map(Some),
+                1 => prop_oneof!["[1-9][0-9]{19}", "[6-9][0-9]{4}", "[1-9][0-9]{5,6}"].prop_map(Some),
             ]
         };
         (
@@ -491,7 +496,7 @@ impl Prop for C01 {
             ],
             0u8..12,
             prop_oneof![Just(0u8), Just(0xffu8), any::<u8>()],
-            prop::option::weighted(0.06, (0u8..3, any::<u16>(), 0u8..8)),
+            prop::option::weighted(0.08, (0u8..3, any::<u16>(), 0u8..12)),
         )
             .prop_map(|(ev, plan, kind_txt, created_txt, upper_hex, surrogate, trailing, buf, fill, hex_corrupt)| Case {
                 src: Src::Model {
@@ -618,10 +623,12 @@ impl Prop for C01 {
                     return out;
                 }
                 if view.dup_known {
-                    // RFC 8259: with duplicate names the value a parser reports is unpredictable; nothing to compare against
+                    // RFC 8259 leaves the meaning of repeated names open, but every common parser (serde_json::Value,
+                    // JSON.parse, Python) reports the last occurrence: an accepted text is compared with that
                     out.label("accepted-with-duplicate-known-member");
-                } else if let Some((k, d)) = compare_with_view(&p, &view) {
-                    out.fail(format!("C01:{k}"), d);
+                }
+                if let Some((k, d)) = compare_with_view(&p, &view) {
+                    out.fail(format!("C01:{}{k}", if view.dup_known { "repeated-member:" } else { "" }), d);
                 }
             }
             Err(e) if e.starts_with("INCONSISTENT") => {
